@@ -247,6 +247,69 @@ def fam_csr(rng: np.random.Generator, count: int) -> Iterator[dict]:
                "outs": {"out": 5}}
 
 
+def fam_pairs(shape: tuple[int, ...] = (2, 3, 4)) -> Iterator[dict]:
+    """Every ordered PAIR of index-remapping operations applied directly one
+    on the other (what a peephole simplification of adjacent nodes would have
+    to get right: reshape on a reshape of the other order, transpose of a
+    transpose, a slice of a reversed slice, expand_dims of an F-order reshape,
+    a join of one array ...)."""
+    def cands(sh: tuple[int, ...]) -> list[tuple[str, dict]]:
+        n = int(np.prod(sh, dtype=np.int64))
+        out: list[tuple[str, dict]] = []
+        flat = [n] if len(sh) != 1 else [n // 2, 2] if n % 2 == 0 else [1, n]
+        alt = [sh[-1] * sh[0], *sh[1:-1]] if len(sh) >= 2 else flat
+        for order in "CF":
+            out.append((f"reshape{order}", {"op": "reshape", "newshape": list(flat),
+                                            "order": order}))
+            out.append((f"reshape2{order}", {"op": "reshape", "newshape": list(alt),
+                                             "order": order}))
+        if len(sh) >= 2:
+            perm = list(range(1, len(sh))) + [0]
+            out.append(("transpose", {"op": "transpose", "axes": perm}))
+            out.append(("swap", {"op": "transpose",
+                                 "axes": [*range(len(sh) - 2), len(sh) - 1, len(sh) - 2]}))
+        if sh:
+            out.append(("roll", {"op": "roll", "shift": 1, "axis": len(sh) - 1}))
+            out.append(("rev", {"op": "index", "idx": [{"t": "slice", "start": [], "stop": [],
+                                                        "step": [-1]}]}))
+            out.append(("tail", {"op": "index", "idx": [{"t": "slice", "start": [1], "stop": [],
+                                                         "step": []}]}))
+            out.append(("first", {"op": "index", "idx": [{"t": "int", "v": 0}]}))
+        out.append(("expand0", {"op": "expand_dims", "axis": 0}))
+        out.append(("expand_last", {"op": "expand_dims", "axis": len(sh)}))
+        out.append(("stack1", {"op": "stack", "axis": min(1, len(sh))}))
+        if sh:
+            out.append(("concat1", {"op": "concatenate", "axis": 0}))
+            out.append(("concat_self", {"op": "concatenate", "axis": len(sh) - 1, "twice": True}))
+        return out
+
+    def apply(c: dict, ref: int) -> dict:
+        c = dict(c)
+        if c["op"] in ("stack", "concatenate"):
+            c["arrays"] = [ref, ref] if c.pop("twice", False) else [ref]
+        else:
+            c["a"] = ref
+        return c
+    from . import replay as rp
+    x = inp("x", shape)
+    a0 = np.zeros(shape)
+    for n1, c1 in cands(shape):
+        nb = rp.NpBackend({"x": a0})
+        nb.values = [a0]
+        try:
+            v1 = np.asarray(nb._call(apply(c1, 1)))
+        except Exception:      # noqa: BLE001
+            continue
+        for n2, c2 in cands(tuple(v1.shape)):
+            nb.values = [a0, v1]
+            try:
+                nb._call(apply(c2, 2))
+            except Exception:      # noqa: BLE001
+                continue
+            yield {"id": f"pair/{n1}>{n2}", "inputs": [x],
+                   "calls": [apply(c1, 1), apply(c2, 2)], "outs": {"out": 3}}
+
+
 def fam_lpcall(rng: np.random.Generator, count: int) -> Iterator[dict]:
     """Random programs in which calls to hand-written loopy kernels are mixed
     with the arithmetic / structural alphabet (loopy target only)."""
